@@ -103,6 +103,9 @@ def run(F, R):
     from .C13 import g1_bounds, g5_window_extent
     g1_bounds(F, RuleProxy(R, {'G1': 'T7'}))
     g5_window_extent(F, RuleProxy(R, {'G5': 'T7'}), rule='G5')
+    # T8: a completion poll the device makes fail (wrong / repeated id, nothing ready) frees nothing that is still posted
+    from .C04 import p8_release_after_completion
+    p8_release_after_completion(F, RuleProxy(R, {'P8': 'T8'}), M)
     if 'device::gpu::VirtIOGpu' in F.adts:
         from . import C05 as _c5
         from .C20 import z3_z4_gpu
